@@ -145,7 +145,7 @@ func c23ListKeys(flavour string) string {
 					e = "other"
 				}
 			}
-			return fmt.Sprintf("%d %d %d err=%s", d.r.NumNodes, d.r.NumResp, d.r.NumErr, e)
+			return fmt.Sprintf("%d %d %d err=%s k=%s p=%s", d.r.NumNodes, d.r.NumResp, d.r.NumErr, e, c23Counts(d.r.Keys), c23Counts(d.r.PrimaryKeys))
 		default:
 		}
 		// the transport: deliver the node's packets to itself
